@@ -20,6 +20,7 @@ import numpy as np
 from .runner import Component, exc_code
 from . import gridsim as G
 from . import rngspy
+from . import pubapi
 
 HD = G.HD
 STATE_NAMES = ["PositionState", "HealthState", "AmmoState", "OrientationState"]
@@ -115,8 +116,8 @@ def build(cfg):
                          attack_mapping={e: set(encs) for e in encs},
                          no_overlap_at_reset=bool(noov))
     # the set's iteration order is arbitrary (object hashes): the case prescribes it
-    by_name = {type(s).__name__: s for s in sim._states}
-    sim._states = [by_name[STATE_NAMES[k]] for k in order]
+    by_name = {type(s).__name__: s for s in pubapi.components(sim, "states")}
+    pubapi.set_components(sim, "states", [by_name[STATE_NAMES[k]] for k in order])
     return sim
 
 
@@ -125,10 +126,10 @@ def dirty(sim, rng, nsteps, nwrites):
     rows, cols = sim.grid.rows, sim.grid.cols
     ags = list(sim.agents.values())
     for a in ags:                       # attributes a failed first reset may not have created
-        if not hasattr(a, "_position"):
-            a._position = None
-        if not hasattr(a, "_health"):
-            a._health, a._active = 0, False
+        if pubapi.pub(a, "position", pubapi.UNSET) is pubapi.UNSET:
+            a.position = None
+        if pubapi.pub(a, "health") is None:
+            a.health = 0
     for _ in range(nsteps):
         acts = {a.id: {"move": np.array([rng.randint(-1, 1), rng.randint(-1, 1)]),
                        "attack": rng.choice([0, 1, 1])}
@@ -151,8 +152,8 @@ def dirty(sim, rng, nsteps, nwrites):
             if a.position is not None and a.id in sim.grid[tuple(a.position)]:
                 sim.grid.remove(a, tuple(a.position))
             p = (rng.randrange(rows), rng.randrange(cols))
-            sim.grid._internal[p][a.id] = a
-            a._position = np.array(p)
+            sim.grid[p][a.id] = a
+            a.position = np.array(p)
 
 
 def impl(inp):
